@@ -877,7 +877,6 @@ type pgRunRes struct {
 	mispredicts int
 	stalls      int
 	opened      int
-	heldOK      bool // holdForClose: every full round was opened with the CLOSE frame already written
 }
 
 func pgFact(n int) int {
@@ -919,7 +918,7 @@ func pgNextClose(prog []*pgReq, from int) int {
 // lets blocked backend calls through in chosen orders, and returns when every response has arrived or on timeout.
 // The client->server direction stays open; the caller shuts the instance down afterwards.
 func pgRun(in *pgInst, prog []*pgReq, o pgRunOpt) *pgRunRes {
-	res := &pgRunRes{firstRoundN: -1, heldOK: true}
+	res := &pgRunRes{firstRoundN: -1}
 	if o.timeout == 0 {
 		o.timeout = 10 * time.Second
 	}
@@ -998,15 +997,6 @@ func pgRun(in *pgInst, prog []*pgReq, o pgRunOpt) *pgRunRes {
 			if sim.ok {
 				sim.ok = false
 				res.mispredicts++
-				if os.Getenv("PG_DEBUG") != "" {
-					fmt.Fprintf(os.Stderr, "mispredict: blocked=%d exp=%d written=%d expw=%d p=%d answered=%d n=%d round=%d\n", blocked, sim.expBlocked(), wr, sim.w, sim.p, sim.answered, n, res.rounds)
-					for _, c := range o.gate.snapshot() {
-						fmt.Fprintf(os.Stderr, "   blocked %s %s\n", c.kind, c.args)
-					}
-					for i, r := range prog {
-						fmt.Fprintf(os.Stderr, "   %d %s cls=%d slot=%d sync=%v done=%v\n", i, r.op, r.cls, r.slot, r.sync, sim.completed[i])
-					}
-				}
 			}
 		}
 		if !ready || blocked == 0 {
